@@ -367,4 +367,71 @@ def finalEnv (c : PassClass) (lines : List (List GOp)) (ρ0 : String → α) (co
 
 end value
 
+/-! ### Part 4: the usable cross-section - which width the hook implementation hands to which helper
+
+  `usable_cross_section` / `usable_cross_section3` are one line each: `return helpers.<fn>(self, <terms>)`; the helper cuts
+  the polygon enclosed by `self.contour_lines` with `clip_by_rect` windows (and turns it in between).  The translator reads
+  the call (`HelperCall`: the term handed over for every parameter of the helper, an omitted argument replaced by the
+  parameter's default) and the helper (`Helper`: its steps, loops unrolled, bounds as terms over the parameter variables
+  `"<fn>:<parameter>"` and the attribute paths of the pass).  GEOS' polygon clipping itself is not modelled: the model follows
+  ONE point of the opening through the steps - a clip keeps or discards it, a turn moves it. -/
+
+/-- one step of a cross-section helper; a bound `none` is `-math.inf` / `math.inf` -/
+inductive ROp where
+  | clip (xmin ymin xmax ymax : Option Expr)   -- poly = clip_by_rect(poly, xmin, ymin, xmax, ymax)
+  | rotate (angleDeg : Expr)                   -- poly = rotate(poly, angle, origin=(0, 0))
+  deriving Repr, DecidableEq, Inhabited
+
+structure Helper where
+  fn : String
+  params : List String                         -- parameter variables after the pass, `"<fn>:<name>"`
+  ops : List ROp
+  deriving Repr, DecidableEq, Inhabited
+
+structure HelperCall where
+  host : String
+  hook : String
+  fn : String
+  helper : String                              -- name of the helper called
+  args : List (String × Expr)                  -- parameter variable ↦ term over the hooks / attribute paths of `self`
+  deriving Repr, DecidableEq, Inhabited
+
+section region
+variable {α : Type} [PyNum α]
+
+def lowerOk (ρ : String → α) (b : Option Expr) (v : α) : Bool :=
+  match b with
+  | some e => PyNum.le (Expr.eval ρ e) v
+  | Option.none => true
+
+def upperOk (ρ : String → α) (v : α) (b : Option Expr) : Bool :=
+  match b with
+  | some e => PyNum.le v (Expr.eval ρ e)
+  | Option.none => true
+
+/-- follow one point of the opening through the steps of a helper: `none` once a clip discards it, else where it ends up -/
+def keepPt (ρ : String → α) : List ROp → Pt α → Option (Pt α)
+  | [], p => some p
+  | .clip a b c d :: ops, p =>
+    if lowerOk ρ a p.x && lowerOk ρ b p.y && upperOk ρ p.x c && upperOk ρ p.y d then keepPt ρ ops p else Option.none
+  | .rotate a :: ops, p => keepPt ρ ops (rotPt (Expr.eval ρ a) p)
+
+/-- the environment inside the helper: its parameters bound to the values of the terms the caller hands over -/
+def callEnv (ρ : String → α) (call : HelperCall) : String → α :=
+  extend ρ (call.args.map fun a => (a.1, Expr.eval ρ a.2))
+
+end region
+
+/-- the pass class of a plug-in: a subclass (most derived) carrying one more implementation of `hook`, answering `e` -/
+def withPlugin (c : PassClass) (hook : String) (e : Expr) : PassClass :=
+  { c with
+    mro := "<plugin>" :: c.mro,
+    impls := c.impls ++ [{ host := "<plugin>", hook := hook, fn := "<plugin>", tier := 1, wrapper := false,
+                            wantsCycle := false, alts := [(.tt, .expr e)] }] }
+
+/-- what a fresh pass with the members `given` set explicitly hands to the helper: every argument term of the call is
+    evaluated like the body of a hook implementation (hooks of `self` are read through the hook system) -/
+def handedOver (c : PassClass) (call : HelperCall) (given : List String) : List (String × Res) :=
+  call.args.map fun a => (a.1, (run c fuel0 (.body a.2) { dict := given, cache := [], contour := Option.none }).1)
+
 end PassGeom
